@@ -125,7 +125,20 @@ class Path:
         if it is not None and it.loop_stack and not it.in_raise_branch:
             from . import loops as _loops
             if any(_loops._term_mentions(t, fr.L) for fr in it.loop_stack):
-                raise Unsupported("iteration-dependent branch inside a summarised loop (needs an explicit invariant)")
+                # decided the same way in every iteration (under the facts of the generic iteration)?
+                i = len(self.taken)
+                if i < len(self.prefix):
+                    choice = self.prefix[i]
+                else:
+                    can_t = self.explorer.feasible(self.conds + [t])
+                    can_f = self.explorer.feasible(self.conds + [z3.Not(t)])
+                    if can_t and can_f:
+                        raise Unsupported("iteration-dependent branch inside a summarised loop (needs an explicit invariant)")
+                    if not can_t and not can_f:
+                        raise Infeasible()
+                    choice = can_t
+                self.taken.append(choice)
+                return choice
         i = len(self.taken)
         if i < len(self.prefix):
             choice = self.prefix[i]
@@ -832,7 +845,8 @@ class Interp:
                     self.exec_block(f.node.body, env)
                 except ReturnEx:
                     pass
-                return GenV(items)
+                ys = env.vars["__yield__"]
+                return GenV(ys) if isinstance(ys, list) else ys     # (a symbolic-length sequence of yields)
             try:
                 self.exec_block(f.node.body, env)
             except ReturnEx as r:
@@ -856,7 +870,8 @@ class Interp:
                     self.exec_block(node.body, env)
                 except ReturnEx:
                     pass
-                return GenV(items)
+                ys = env.vars["__yield__"]
+                return GenV(ys) if isinstance(ys, list) else ys     # (a symbolic-length sequence of yields)
             try:
                 self.exec_block(node.body, env)
             except ReturnEx as r:
@@ -1097,7 +1112,12 @@ class Interp:
             return          # docstring
         if isinstance(st.value, (ast.Yield,)):
             v = self.eval(st.value.value, env) if st.value.value is not None else None
-            env.lookup("__yield__").append(v)
+            ys = env.lookup("__yield__")
+            if isinstance(ys, list):
+                # (through the list contract: inside a summarised loop the yield is an append effect of the iteration)
+                self.call(self.getattr(ys, "append"), [v], {})
+            else:
+                raise Unsupported("yield after a summarised loop")
             return
         if isinstance(st.value, ast.YieldFrom):
             it = self.eval(st.value.value, env)
@@ -1620,6 +1640,8 @@ class Interp:
             return a * b
         if op == "%" and isinstance(a, str):
             return a
+        if isinstance(a, (set, frozenset)) and isinstance(b, (set, frozenset)) and op in ("-", "|", "&", "^"):
+            return {"-": a - b, "|": a | b, "&": a & b, "^": a ^ b}[op]
         h = self.stubs.get("__binop__")
         if h is not None:
             r = h(self, op, a, b)
@@ -1963,7 +1985,7 @@ class Interp:
             return iter(it)
         if getattr(it, "_pyvc_native", False) and hasattr(type(it), "__iter__"):
             try:
-                return iter(list(it))
+                return iter([v for v in it])      # (not list(it): that asks for len(it), which may be symbolic)
             except TypeError as e:
                 raise PyRaise(self.make_exc("TypeError", str(e)))
         h = self.stubs.get("__iter__")
